@@ -62,6 +62,7 @@ func c17(c *q.Ctx) {
 		}
 		c.StoreIs(nm, "Meta.MetaTmp", "local<UtxoMeta> OR proto.Clone(local<UtxoMeta>)", 2, "MetaTmp ends up a copy of the loaded Meta (the literal's empty message is replaced)")
 	}
+	metaCopiesDistinct(c)
 	cur := "meta.(*Meta).GetIrreversibleBlockHeight(p0.meta)"
 	win := "meta.(*Meta).GetIrreversibleSlideWindow(p0.meta)"
 	for _, op := range []struct{ fn, height string }{
@@ -162,4 +163,51 @@ func publishesMeta(i ssa.Instruction, depth int) bool {
 		}
 	}
 	return false
+}
+
+// metaCopiesDistinct (shared by C05/C06/C17): the published meta (Meta.Meta) and the staging copy (Meta.MetaTmp) are
+// never the same object - every value stored into either field is a fresh literal or a proto.Clone. If they aliased,
+// a staged-but-unwritten change (a failed or still running block application) would be visible to GetMeta() readers.
+func metaCopiesDistinct(c *q.Ctx) {
+	n := 0
+	seenAlloc := map[*ssa.Alloc]bool{}
+	for _, tf := range []string{"Meta.Meta", "Meta.MetaTmp"} {
+		for _, r := range c.FieldRefs(tf) {
+			if !r.Write {
+				continue
+			}
+			fa := r.Instr.(*ssa.FieldAddr)
+			for _, u := range *fa.Referrers() {
+				st, ok := u.(*ssa.Store)
+				if !ok || st.Addr != fa {
+					continue
+				}
+				n++
+				c.Sites++
+				v := q.Canon(st.Val)
+				name := load.QualName(q.Top(r.Fn))
+				what := "value stored to " + tf + " is a private copy (fresh literal or proto.Clone)"
+				// decided on the SSA value itself, not on its canonical form: a load of the other field resolves to
+				// the same canonical text as the literal it was initialised with
+				fresh := false
+				sv := q.Strip(st.Val)
+				if ta, ok := sv.(*ssa.TypeAssert); ok {
+					sv = q.Strip(ta.X)
+				}
+				switch x := sv.(type) {
+				case *ssa.Alloc:
+					fresh = x.Heap && !seenAlloc[x]
+					seenAlloc[x] = true
+				case *ssa.Call:
+					fresh = q.Callee(x.Common()).Match("proto::Clone")
+				}
+				if fresh {
+					c.OK("K11", name, what, c.At(st), v)
+				} else {
+					c.Fail("K11", name, what, c.At(st), "stored value is `"+v+"` (not a fresh object): the published and the staged meta would share one object")
+				}
+			}
+		}
+	}
+	c.Floor("K11", "bcs/ledger/xledger/state/meta::NewMeta", "stores to Meta.Meta / Meta.MetaTmp", n, 6)
 }
